@@ -1458,7 +1458,8 @@ pub fn run_scene(scene: &Scene, dev: Dev, judge: Judge) -> RunResult {
                     Ok(Ok(())) => {
                         res.exts.push(e.clone());
                         if !doc_ok {
-                            res.violations.push(viol("C10", "accept/extension-name-malformed".into(), format!("register_extension accepted {:?}", e)));
+                            let why = if name_doc_ok(&e.namespace) { "accept/extension-prefix-registered-twice" } else { "accept/extension-name-malformed" };
+                            res.violations.push(viol("C10", why.into(), format!("register_extension accepted {:?} (already registered: {:?})", e, res.exts.iter().map(|x| x.namespace.clone()).collect::<Vec<_>>())));
                         }
                         let _ = expect_ok;
                     }
